@@ -60,10 +60,16 @@ double BetaDiscreteDistribution::qProb(double x) const
 
 double BetaDiscreteDistribution::pProb(double x) const
 {
+  if (x <= 0)
+    return 0;
+  if (x >= 1)
+    return 1;
   return RandomTools::pBeta(x, alpha_, beta_);
 }
 
 double BetaDiscreteDistribution::Expectation(double a) const
 {
-  return RandomTools::pBeta(a, alpha_ + 1, beta_) * diffln_;
+  if (a <= 0)
+    return 0;
+  return RandomTools::pBeta(a >= 1 ? 1. : a, alpha_ + 1, beta_) * diffln_;
 }
